@@ -147,3 +147,41 @@ def _r13a_c09(p):
     d = (p.get("record") or {}).get("data") or {}
     op = p.get("code", 0) // 100
     return any(r.get("op") == op and r.get("ancestors_real") is False for r in d.get("rejected_templates") or [])
+
+
+# ---------------------------------------------------------------- C11
+
+@predicate("C11-long-light-fork")
+def _c11_long_light_fork(p):
+    """exactly: scenario long-light-fork (the peer's branch overtakes ours in cumulative difficulty only more than
+    PARALLEL_BLOCKS_DOWNLOAD + 1 blocks above our own height) ran into the time bound (conjunct 4) with node B still on
+    its own tip - no crash, no race or deadlock report, both nodes alive, A on the reference chain"""
+    if p.get("corr") or p.get("code") != 4 or p.get("family") != "c11":
+        return False
+    d = (p.get("record") or {}).get("data") or {}
+    if d.get("scenario") not in ("long-light-fork", "race/long-light-fork"):
+        return False
+    b, b0, a, ref = d.get("B") or {}, d.get("B_before") or {}, d.get("A") or {}, d.get("reference") or {}
+    return (d.get("timed_out") is True and d.get("synced") is False and not d.get("crashed")
+            and not d.get("race_report") and not d.get("deadlock_report")
+            and b.get("Top") and b.get("Top") == b0.get("Top") and b.get("Height") == b0.get("Height") == 14
+            and a.get("Top") == ref.get("Top") and a.get("Height") == 75)
+
+
+@predicate("C11-stale-target-peer-gone")
+def _c11_stale_target_peer_gone(p):
+    """exactly: scenario stale-target-peer-gone (a scripted peer announced a higher chain, served nothing and left; the
+    honest peer A holds a chain heavier than B's but not higher) ran into the time bound with B unchanged and its
+    synchronisation target still at the height the scripted peer announced"""
+    if p.get("corr") or p.get("code") != 4 or p.get("family") != "c11":
+        return False
+    d = (p.get("record") or {}).get("data") or {}
+    if d.get("scenario") not in ("stale-target-peer-gone", "race/stale-target-peer-gone"):
+        return False
+    b, b0, a, ref = d.get("B") or {}, d.get("B_before") or {}, d.get("A") or {}, d.get("reference") or {}
+    return (d.get("timed_out") is True and d.get("synced") is False and not d.get("crashed")
+            and not d.get("race_report") and not d.get("deadlock_report")
+            and (d.get("faults_injected") or {}).get("gone") == 1 and (d.get("faults_injected") or {}).get("served") == 0
+            and b.get("Top") and b.get("Top") == b0.get("Top") and a.get("Top") == ref.get("Top")
+            and d.get("sync_target_height", 0) > max(b.get("Height", 0), a.get("Height", 0)))
+
